@@ -1,6 +1,7 @@
 SPECIFICATION TraceSpec
 CONSTANTS WakeAll = TRUE
  NotifyOnFail = TRUE
+ NarrowLock = FALSE
 CONSTRAINT Mark
 ACTION_CONSTRAINT ActOK
 POSTCONDITION Report
